@@ -11,20 +11,20 @@ class FCfg:
     def __init__(self, n_workers=2, mulp=False, calls=((3, 1),), exact=False):
         """calls: (items, chunk_size) — chunk size is 1 for mul_p_map;
         exact: the caller takes exactly as many results as there are items (zip / islice style) and drops the generator
-        instead of running it into StopIteration.  The model's caller always exhausts the generator (it then polls the
-        result queue once more), so these runs are judged by the oracle only (`oracle_only`)"""
+        instead of running it into StopIteration (`Cfg.exact` in the model: no further poll of the result queue after the
+        last item)"""
         self.n_workers = n_workers
         self.mulp = mulp
         self.calls = [tuple(c) for c in calls]
         self.exact = exact
-        self.oracle_only = bool(exact)
+
 
     def cap(self):
         return multiprocessing.cpu_count() if self.mulp else self.n_workers
 
     def model_line(self):
         chunks = " ".join(str(-(-n // cs)) for n, cs in self.calls)
-        return f"cfg {self.n_workers} {self.cap()} {1 if self.mulp else 0} {chunks}".rstrip()
+        return f"{'cfgx' if self.exact else 'cfg'} {self.n_workers} {self.cap()} {1 if self.mulp else 0} {chunks}".rstrip()
 
     def to_json(self):
         return dict(n_workers=self.n_workers, mulp=self.mulp, calls=self.calls, exact=self.exact)
